@@ -201,37 +201,65 @@ const LinkMarker = "\x00symlink:"
 
 func ReadDisk(root string, skip func(nominal string) bool) (Disk, error) {
 	d := Disk{}
-	err := filepath.WalkDir(root, func(p string, e fs.DirEntry, err error) error {
-		if err != nil {
-			return err
-		}
-		nom := strings.TrimPrefix(p, root)
-		if nom == "" {
-			return nil
-		}
-		if skip != nil && skip(nom) {
-			return nil
-		}
-		if e.IsDir() {
-			d[nom] = []byte(DirMarker)
-			return nil
-		}
-		if e.Type()&fs.ModeSymlink != 0 {
-			// a symbolic link is recorded as such (not as the content it points to)
-			target, lerr := os.Readlink(p)
-			if lerr != nil {
-				return lerr
+	// A symbolic link to a directory is a second name of that directory: its content is
+	// reported below the link (the name the tests use) and the directory it points to is
+	// not reported under its own name.
+	hidden := map[string]bool{}
+	filepath.WalkDir(root, func(p string, e fs.DirEntry, err error) error {
+		if err == nil && e.Type()&fs.ModeSymlink != 0 {
+			if fi, serr := os.Stat(p); serr == nil && fi.IsDir() {
+				if t, rerr := filepath.EvalSymlinks(p); rerr == nil {
+					hidden[t] = true
+				}
 			}
-			d[nom] = []byte(LinkMarker + target)
-			return nil
 		}
-		b, err := os.ReadFile(p)
-		if err != nil {
-			return err
-		}
-		d[nom] = b
 		return nil
 	})
+	var walk func(phys, nomBase string) error
+	walk = func(phys, nomBase string) error {
+		return filepath.WalkDir(phys, func(p string, e fs.DirEntry, err error) error {
+			if err != nil {
+				return err
+			}
+			nom := nomBase + strings.TrimPrefix(p, phys)
+			if nom == "" {
+				return nil
+			}
+			if skip != nil && skip(nom) {
+				return nil
+			}
+			if e.IsDir() {
+				if hidden[p] && p != phys {
+					return filepath.SkipDir
+				}
+				if p != phys || nomBase == "" {
+					d[nom] = []byte(DirMarker)
+				}
+				return nil
+			}
+			if e.Type()&fs.ModeSymlink != 0 {
+				// a symbolic link is recorded as such (not as the content it points to)
+				target, lerr := os.Readlink(p)
+				if lerr != nil {
+					return lerr
+				}
+				d[nom] = []byte(LinkMarker + target)
+				if fi, serr := os.Stat(p); serr == nil && fi.IsDir() {
+					if t, rerr := filepath.EvalSymlinks(p); rerr == nil {
+						return walk(t, nom)
+					}
+				}
+				return nil
+			}
+			b, err := os.ReadFile(p)
+			if err != nil {
+				return err
+			}
+			d[nom] = b
+			return nil
+		})
+	}
+	err := walk(root, "")
 	return d, err
 }
 
